@@ -695,4 +695,5 @@ RULES = [
 	('17.e', 'graph objects are fully serialized', r17e),
 	('17.f', 'graph maps are mutated only by the frozen function set', r17f),
 	('17.p', 'same-name field transfer: structs carrying this property\'s quantities are filled from the same-named field or a reviewed alias (rules/provenance.py)', lambda F: provenance.for_property(F, 'C17', '17.p')),
+	('17.q', 'no call hands a value named like one parameter of the callee to a different parameter (swapped type-compatible arguments; rules/provenance.py)', lambda F: provenance.swaps_for_property(F, 'C17', '17.q')),
 ]
